@@ -25,16 +25,81 @@ def tg(o, Hx, Hy, Px, Py, w):
     return {k: np.array(getattr(sg, k), dtype=float) for k in RECS}
 
 
-def pupil_points(o, Hx, Hy, num, distribution):
-    """pupil samples exactly as documented for Optic.trace (the distribution's points, scaled by the field's
-    vignetting factors)"""
+DISTRIBUTIONS = ('hexapolar', 'uniform', 'cross', 'line_x', 'line_y', 'positive_line_x', 'positive_line_y', 'ring', 'random')
+
+
+def documented_points(distribution, num):
+    """the DOCUMENTED normalised pupil samples of every named distribution, written down here independently of
+    optiland.distribution (which is part of what is under test).  'random' has no reproducible samples: None."""
+    if distribution == 'line_x':
+        return np.linspace(-1, 1, num), np.zeros(num)
+    if distribution == 'line_y':
+        return np.zeros(num), np.linspace(-1, 1, num)
+    if distribution == 'positive_line_x':
+        return np.linspace(0, 1, num), np.zeros(num)
+    if distribution == 'positive_line_y':
+        return np.zeros(num), np.linspace(0, 1, num)
+    if distribution == 'uniform':                      # num x num grid on [-1, 1]^2 masked to the unit disk, row-major
+        g = np.linspace(-1, 1, num)
+        x, y = np.meshgrid(g, g)
+        keep = x ** 2 + y ** 2 <= 1
+        return x[keep], y[keep]
+    if distribution == 'hexapolar':                    # centre + rings i = 1..num of 6 i equally spaced points, radius i / num
+        xs, ys = [0.0], [0.0]
+        for i in range(1, num + 1):
+            for k in range(6 * i):
+                th = 2 * math.pi * k / (6 * i)
+                xs.append(i / num * math.cos(th))
+                ys.append(i / num * math.sin(th))
+        return np.array(xs), np.array(ys)
+    if distribution == 'cross':                        # num samples along y, then num samples along x
+        g = np.linspace(-1, 1, num)
+        return np.concatenate([np.zeros(num), g]), np.concatenate([g, np.zeros(num)])
+    if distribution == 'ring':                         # num DISTINCT equally spaced points on the edge of the pupil
+        th = 2 * math.pi * np.arange(num) / num
+        return np.cos(th), np.sin(th)
+    if distribution == 'random':
+        return None
+    raise ValueError(distribution)
+
+
+def check_distributions(nums=(1, 2, 5, 8)):
+    """every named distribution of optiland.distribution against its documented samples (and the contract of 'random':
+    the requested number of distinct points inside the unit pupil, scaled by the vignetting factors)"""
     from optiland.distribution import create_distribution
+    out = []
+    for name in DISTRIBUTIONS:
+        for n in nums:
+            for vx, vy in ((0.0, 0.0), (0.2, 0.1)):
+                try:
+                    d = create_distribution(name)
+                    d.generate_points(n, vx, vy)
+                    x, y = np.array(d.x, dtype=float), np.array(d.y, dtype=float)
+                except Exception as e:   # noqa
+                    out.append(v('Distribution', 'raises', f'{name} n={n}: {type(e).__name__}: {e}', distribution=name))
+                    continue
+                doc = documented_points(name, n)
+                if doc is None:
+                    r = np.sqrt((x / (1 - vx)) ** 2 + (y / (1 - vy)) ** 2)
+                    pts = set(zip(x.tolist(), y.tolist()))
+                    if len(x) != n or len(y) != n or np.any(r > 1 + 1e-12) or len(pts) != n:
+                        out.append(v('Distribution', 'samples', f'{name} n={n}: not {n} distinct points of the unit pupil', distribution=name))
+                elif not (close(x, doc[0] * (1 - vx), atol=1e-12) and close(y, doc[1] * (1 - vy), atol=1e-12)):
+                    out.append(v('Distribution', 'samples', f'{name} n={n} v=({vx},{vy}): generated points are not the documented samples '
+                                 f'(got {len(x)} points, {len(set(zip(np.round(x, 12).tolist(), np.round(y, 12).tolist())))} distinct)', distribution=name))
+    return out
+
+
+def pupil_points(o, Hx, Hy, num, distribution):
+    """pupil samples exactly as documented for Optic.trace: the DOCUMENTED points of the named distribution (written
+    down in documented_points, not taken from the library), scaled by (1 - v) of the field's vignetting factors"""
     vx, vy = o.fields.get_vig_factor(Hx, Hy)
-    d = create_distribution(distribution)
-    d.generate_points(num, vx, vy)
-    # Optic.trace scales the generated points by (1 - v) once more and then hands them to the same ray generator as
-    # trace_generic, which applies its own (1 - v): passing the generated points to trace_generic reproduces trace
-    return np.array(d.x, dtype=float), np.array(d.y, dtype=float)
+    doc = documented_points(distribution, num)
+    if doc is None:
+        raise ValueError('the samples of a random distribution cannot be reproduced')
+    # Optic.trace scales the points by (1 - v) once more and then hands them to the same ray generator as
+    # trace_generic, which applies its own (1 - v): passing points * (1 - v) to trace_generic reproduces trace
+    return np.array(doc[0], dtype=float) * (1 - vx), np.array(doc[1], dtype=float) * (1 - vy)
 
 
 def spot_of(o, field, w, num, distribution):
@@ -335,7 +400,7 @@ def check_rayfan(o, fields, wavelengths, num_points):
     return out
 
 
-def check_pupil_aberration(o, fields, wavelengths, num_points):
+def check_pupil_aberration(o, fields, wavelengths, num_points, stop=None):
     from optiland.analysis import PupilAberration
     wl = [float(w) for w in wavelengths]
     ctx = {'fields': [list(map(float, f)) for f in fields], 'wavelengths': wl, 'num_points': num_points}
@@ -346,7 +411,8 @@ def check_pupil_aberration(o, fields, wavelengths, num_points):
     out = []
     n = num_points + 1 if num_points % 2 == 0 else num_points
     P = np.linspace(-1, 1, n)
-    stop = o.surface_group.stop_index
+    if stop is None:
+        stop = o.surface_group.stop_index
     wp = float(o.primary_wavelength)
     # paraxial reference: the stop is conjugate to the entrance pupil, so the paraxial height at the stop is P * d with
     # d the paraxial stop radius = slope of the real on-axis ray height at the stop for a vanishing pupil coordinate
@@ -369,6 +435,41 @@ def check_pupil_aberration(o, fields, wavelengths, num_points):
             if not close(e['y'], ey, atol=1e-9):
                 out.append(v('PupilAberration', 'y', f'field {f} wavelength {w}' + (': all NaN' if all_nan else ''), all_nan=all_nan, **ctx))
     return out
+
+
+def check_stop(o, spec):
+    """the aperture stop of the lens is the surface the PRESCRIPTION declares (the one declared last), it is the only one,
+    and the real rays are aimed at its entrance pupil: the chief ray of a small field crosses it at its centre (up to
+    third-order pupil aberration)"""
+    exp = expected_stop(spec)
+    if exp is None:
+        return []
+    out = []
+    flagged = [i for i, sf in enumerate(o.surface_group.surfaces) if sf.is_stop]
+    ctx = {'expected_stop': exp, 'flagged': flagged, 'route': spec.get('route', 'direct')}
+    if flagged != [exp]:
+        out.append(v('PupilAberration', 'stop-bookkeeping', f'surfaces flagged as the stop: {flagged}; the prescription declares surface {exp}', **ctx))
+    try:
+        si = int(o.surface_group.stop_index)
+        if si != exp:
+            out.append(v('PupilAberration', 'stop-bookkeeping', f'stop_index = {si}; the prescription declares surface {exp}', **ctx))
+    except Exception as e:   # noqa
+        out.append(v('PupilAberration', 'stop-bookkeeping', f'stop_index raises {type(e).__name__}: {e}', **ctx))
+    wp = float(o.primary_wavelength)
+    eps = 1e-6
+    d = tg(o, 0.0, 0.0, 0.0, eps, wp)['y'][exp, 0] / eps
+    h = 0.02
+    yc = tg(o, 0.0, h, 0.0, 0.0, wp)['y'][exp, 0]
+    if np.isfinite(d) and d != 0 and np.isfinite(yc) and abs(yc / d * 100) > 2e-3:
+        out.append(v('PupilAberration', 'chief-ray-misses-stop-centre', f'field Hy={h}: the chief ray crosses the stop (surface {exp}) at '
+                     f'{float(yc / d * 100):.5f} % of the stop radius from its centre', **ctx))
+    return out
+
+
+def expected_stop(spec):
+    """index (in the lens, object = 0) of the surface the prescription declares as the stop"""
+    ks = [i + 1 for i, sf in enumerate(spec['surfaces']) if sf.get('is_stop')]
+    return ks[-1] if ks else None
 
 
 def field_angles(o):
@@ -626,7 +727,7 @@ def check_operands(o, rng, nrays=4):
                 continue
             if not close(got, ref[key][sn, 0]):
                 out.append(v('RayOperand.' + nm, 'value', f'surface {sn} ray ({Hx},{Hy},{Px},{Py},{w}): {got!r} vs {float(ref[key][sn, 0])!r}'))
-    for dist, num in (('hexapolar', 2), ('uniform', 5)):
+    for dist, num in (('hexapolar', 2), ('uniform', 5), ('ring', rng.choice([5, 6]))):
         Hy = rng.uniform(-1, 1)
         w = rng.choice(ws)
         sn = rng.randrange(1, nsurf)
@@ -782,9 +883,48 @@ def c12_spec(rng, aspheres=None, finite=None, nsurf=None, lens_class=None, field
     return _field_class(spec, rng, field_class)
 
 
-def build(spec):
+ROUTES = ('direct', 'iris_object', 'handbuilt', 'reuse', 'roundtrip', 'image_object')
+
+
+def add_iris_object(o, spec, rng):
+    """HISTORY: the finished lens gets a new aperture stop, a plane iris handed over as a ready-made Surface object
+    (add_surface(new_surface=...)) inside one of its air gaps.  spec is updated to the resulting prescription."""
+    from optiland.surfaces import Surface
+    from optiland.geometries import Plane
+    from optiland.coordinate_system import CoordinateSystem
+    surfs = spec['surfaces']
+    gaps = [i for i, sf in enumerate(surfs[:-1]) if sf.get('material', 'air') == 'air' and abs(sf['thickness']) > 1.0]
+    if not gaps:
+        return False
+    i = rng.choice(gaps)
+    frac = rng.uniform(0.25, 0.75)
+    z0 = float(sum(sf['thickness'] for sf in surfs[:i]))          # vertex of surface i+1 (first lens surface at z = 0)
+    t = surfs[i]['thickness']
+    air = o.surface_group.surfaces[i + 1].material_post
+    iris = Surface(Plane(CoordinateSystem(z=z0 + frac * t)), air, air, is_stop=True)
+    o.add_surface(new_surface=iris, index=i + 2)
+    for sf in surfs:
+        sf['is_stop'] = False
+    surfs[i]['thickness'] = frac * t
+    surfs.insert(i + 1, {'type': 'standard', 'radius': float('inf'), 'thickness': (1 - frac) * t, 'is_stop': True, 'material': 'air'})
+    return True
+
+
+def build(spec, route='direct', rng=None):
+    """the prescription reached through one of the public ROUTES (lensgen.build_via plus the stop-redeclaration history)"""
     import lensgen
-    o = lensgen.build(spec)
+    import random as _random
+    rng = rng or _random.Random(0)
+    if route == 'image_object' and not spec.get('image_radius'):
+        spec['image_object'] = True
+    if route in ('handbuilt', 'reuse', 'roundtrip'):
+        o = lensgen.build_via(spec, route, rng)
+    else:
+        o = lensgen.build(spec)
+    if route == 'iris_object':
+        if not add_iris_object(o, spec, rng):
+            route = 'direct'
+    spec['route'] = route
     if spec.get('image_radius'):
         o.set_radius(spec['image_radius'], o.surface_group.num_surfaces - 1)
     if spec.get('image_solve_defocus') is not None:
@@ -792,6 +932,7 @@ def build(spec):
         k = o.surface_group.num_surfaces - 2
         t = float(np.ravel(o.surface_group.get_thickness(k))[0])
         o.set_thickness(t + spec['image_solve_defocus'], k)      # the foci are NOT on the image surface
+        spec['surfaces'][-1]['thickness'] = t + spec['image_solve_defocus']
         r = tg(o, 0.0, 0.0, 0.0, 0.5, float(o.primary_wavelength))
         if not np.isfinite(r['y'][-1, 0]):
             raise ValueError('generated mirror system has no real image')
@@ -816,8 +957,9 @@ def oracle_lens(o, spec, rng, level=1):
     F = [tuple(map(float, f)) for f in o.fields.get_field_coords()]
     W = own_wavelengths(o)
     wp = float(o.primary_wavelength)
-    dist = rng.choice(['hexapolar', 'uniform', 'cross', 'line_y'])
-    num = {'hexapolar': rng.choice([1, 2, 3]), 'uniform': rng.choice([4, 5, 7]), 'cross': rng.choice([3, 6]), 'line_y': rng.choice([4, 9])}[dist]
+    dist = rng.choice(['hexapolar', 'uniform', 'cross', 'line_y', 'ring'])
+    num = {'hexapolar': rng.choice([1, 2, 3]), 'uniform': rng.choice([4, 5, 7]), 'cross': rng.choice([3, 6]), 'line_y': rng.choice([4, 9]),
+           'ring': rng.choice([3, 6, 8])}[dist]
 
     def run(name, fn):
         try:
@@ -831,6 +973,17 @@ def oracle_lens(o, spec, rng, level=1):
         out.extend(r)
 
     run('SpotDiagram', lambda: check_spot(o, F, W, num, dist))
+    # every named distribution string at the documented sample points (one field, one wavelength, small counts)
+    for name in DISTRIBUTIONS:
+        if name == 'random':
+            continue
+        n_ = {'hexapolar': 1, 'uniform': 3, 'cross': 3}.get(name, rng.choice([3, 4, 5]))
+        run('SpotDiagram/dist:' + name, lambda name=name, n_=n_: check_spot(o, F[-1:], [wp], n_, name))
+    import lensgen as _lg
+    if spec.get('route') in ('iris_object', 'handbuilt', 'reuse', 'roundtrip', 'image_object'):
+        run('Prescription', lambda: [v('Prescription', 'prescription', f"{b['quantity']}: implementation {b['implementation']!r}, entered {b['entered']!r}",
+                                       route=spec.get('route')) for b in _lg.prescription_problems(spec, o)])
+    run('Stop', lambda: check_stop(o, spec))
     ex = explicit_lists(o, rng)
     key = rng.choice(sorted(ex))
     run('SpotDiagram/explicit:' + key, lambda: check_spot(o, F[-1:] + [(0.0, 0.35)], ex[key], 2, 'hexapolar'))
@@ -844,7 +997,7 @@ def oracle_lens(o, spec, rng, level=1):
         run('RmsSpotSizeVsField/explicit:' + key3, lambda: check_rms_vs_field(o, 3, ex[key3], 2, 'hexapolar'))
     run('RmsSpotSizeVsField', lambda: check_rms_vs_field(o, rng.choice([3, 4]), 'all', 2, 'hexapolar'))
     if not spec.get('has_asphere'):
-        run('PupilAberration', lambda: check_pupil_aberration(o, F, W + ([0.61] if level > 0 else []), rng.choice([4, 7])))
+        run('PupilAberration', lambda: check_pupil_aberration(o, F, W + ([0.61] if level > 0 else []), rng.choice([4, 7]), stop=expected_stop(spec)))
     for ty in ('f-tan', 'f-theta'):
         run('Distortion:' + ty, lambda: check_distortion(o, 'all' if rng.random() < 0.5 else [0.61, wp], rng.choice([4, 6]), ty))
         run('GridDistortion:' + ty, lambda: check_grid_distortion(o, rng.choice(['primary', 0.61]), rng.choice([4, 5, 6, 7]), ty))
